@@ -61,7 +61,7 @@ def handle (inp impl : Json) : CaseResult :=
   let writtenSeen := (o.written.zipIdx.filter (fun p => wf < 0 || (p.2 : Int) < wf)).map (·.1)
   let m1 := m0 ++ [("written", Json.arr (writtenSeen.map frameJson).toArray)]
   let m2 := if callerLevel then
-      let c := caller inbound false o.outcome
+      let c := caller inbound (jbool inp "prior_admit") o.outcome
       m1 ++ [("notified", (c.notified : Json)),
         ("blocked", (match c.blocked with | some d => (d : Json) | none => Json.null))]
     else m1
@@ -78,7 +78,7 @@ def handle (inp impl : Json) : CaseResult :=
     | _, _ => false
   -- caller level: the block a refused handshake leaves behind is the one the failure class calls for
   let blockOk := !callerLevel || admitted ||
-    (let c := caller inbound false o.outcome
+    (let c := caller inbound (jbool inp "prior_admit") o.outcome
      match c.blocked with
      | some d => jhas impl "blocked" && jnat impl "blocked" == d
      | none => !(jhas impl "blocked"))
